@@ -22,8 +22,24 @@ func engineErrfmt(q string, pos, pad int, exec bool) string {
 			trailer = strings.Repeat(" ", pad) + "Syntax Error: m"
 		}
 		qb := err.(kvql.QueryBinder)
-		qb.BindQuery(q)
-		qb.SetPadding(pad)
+		// the rendered text is a function of (query, offset, padding): the order of the calls and an
+		// earlier rendering of the still unbound error (a log line, say) do not matter
+		switch (pos + pad + len(q) + 8) % 4 {
+		case 0:
+			qb.BindQuery(q)
+			qb.SetPadding(pad)
+		case 1:
+			_ = err.Error()
+			qb.BindQuery(q)
+			qb.SetPadding(pad)
+		case 2:
+			qb.SetPadding(pad)
+			qb.BindQuery(q)
+		default:
+			qb.SetPadding(pad)
+			_ = err.Error()
+			qb.BindQuery(q)
+		}
 		msg := err.Error()
 		if !strings.HasSuffix(msg, trailer) {
 			return "bad-trailer:" + hxs(msg)
